@@ -79,7 +79,7 @@ def main():
         inconclusive = "%d of %d cases inconclusive: %s" % (n_inc, len(cases), dict(inc_reasons.most_common(3)))
     # replay files + verdict lines
     lines = []
-    rdir = os.path.join(ROOT, "evidence", "replays", prop)
+    rdir = os.path.join(os.environ.get("VERIF_EVIDENCE_DIR") or os.path.join(ROOT, "evidence"), "replays", prop)
     if unlisted and not a.replay:
         os.makedirs(rdir, exist_ok=True)
     for mech, lst in unlisted.items():
